@@ -15,7 +15,7 @@ from functools import partial
 import numpy as np
 
 from ..cexec import ControlledExecutor
-from ..common import Problem
+from ..common import stable_hash, Problem
 from ..programs import Builder
 from ..runcase import make_spec
 from ..sweep import sweep
@@ -115,6 +115,15 @@ def compute_once(case, seed, optimize, setting=None, subset_index=None):
             kw = {}
             if fn is not None:
                 kw["optimize_function"] = fn
+            if optimize and len(arrs) > 1 and int(stable_hash(case["terms"]), 16) % 2 == 0:
+                # non-initial optimizer state (deterministic half of the multi-output programs): every requested array has
+                # been planned on its own before they are computed together - what the optimizer decided for one graph
+                # must not leak into the next (a shared intermediate fused away for one consumer is shared again here)
+                for a in arrs:
+                    try:
+                        cubed.plan(a, optimize_graph=True, **kw)
+                    except Exception:
+                        pass
             try:
                 got = cubed.compute(*arrs, executor=ex, optimize_graph=optimize, **kw)
             except Exception as e:
@@ -212,7 +221,8 @@ def run(ctx):
     if ctx.tier == "quick":
         # quick: all 1-node programs and every third 2-node program (deterministic partition); the full settings
         # menu on every 40th program; thorough covers everything
-        pc = [p for p in pc if p["nodes"] == 1] + [p for p in pc if p["nodes"] == 2][::3]
+        # ... plus the forks (an unrequested intermediate with two requested consumers: 3 op nodes)
+        pc = [p for p in pc if p["nodes"] == 1] + [p for p in pc if p["nodes"] == 2][::3] + [p for p in pc if p["nodes"] == 3 and len(p["terms"]) == 2]
         for i, p in enumerate(pc):
             if i % 40 == 0:
                 p["_full"] = True
